@@ -9,7 +9,8 @@ DEFAULT_VALUES = [4, 6, 8, 9, 12, 16, 18, 24, 36]
 FLAG_NAMES = ["flag_running_values", "flag_fuse_track", "flag_fuse_value", "flag_fuse_velocity"]
 # time signatures whose length is a whole number of eighths within 2..16 (num, den)
 SIGNATURES = ([(n, 8) for n in range(2, 17)] + [(n, 4) for n in range(1, 9)] + [(n, 2) for n in range(1, 5)] +
-              [(n, 16) for n in range(4, 33, 2)])
+              [(n, 16) for n in range(4, 33, 2)] + [(n, 32) for n in range(8, 65, 4)] + [(n, 64) for n in range(16, 129, 8)] +
+              [(n, 1) for n in range(1, 3)])
 SPECIAL_BINS = [1, 2, 3, 4, 5, 8, 15, 16, 19, 22, 32, 36, 64, 100, 127]
 
 
